@@ -88,7 +88,7 @@ class Generic(Registry):
         """Create a verbose message.
         """
         return Generic.bound('verbose', self.proto_version)(
-            data=message
+            msg=message
         )
 
     def create_progress(self, value: int) -> HubMessage:
